@@ -707,7 +707,7 @@ func (e *Exec) extAxiom(a, b *smt.Term, w int) (*smt.Term, *smt.Term) {
 	}
 	at := func(x, i *smt.Term) *smt.Term { return c.App(fmt.Sprintf("seq_at%d", w), smt.BV(w), x, i) }
 	ln := func(x *smt.Term) *smt.Term { return c.App("seq_len", smt.BV(64), x) }
-	d := c.Fresh("diff", smt.BV(64))
+	d := c.FreshOver("diff", smt.BV(64), a, b)
 	ax := c.Or(c.Eq(a, b), c.Neq(ln(a), ln(b)),
 		c.And(c.BVSle(bv64(c, 0), d), c.BVSlt(d, ln(a)), c.Neq(at(a, d), at(b, d))))
 	e.extMemo[key] = [2]*smt.Term{ax, d}
@@ -729,12 +729,20 @@ func (e *Exec) seqTerm(st *State, s *SeqV) *smt.Term {
 		e.seqProbe = c.Fresh("probe", smt.BV(64))
 		e.seqByKey = map[string]*smt.Term{}
 	}
+	// a view of an existing sequence term is that term
+	if r := s.Read(e.seqProbe); r.Op == "app" && r.Name == fmt.Sprintf("seq_at%d", s.W) && len(r.Args) == 2 && r.Args[1] == e.seqProbe && r.Args[0].Sort == sortByteSeq {
+		t := r.Args[0]
+		if (s.Len.Op == "app" && s.Len.Name == "seq_len" && s.Len.Args[0] == t) || (e.fixedLen[t.ID] != nil && e.fixedLen[t.ID] == s.Len) {
+			e.seqNames = append(e.seqNames, seqName{s, t})
+			return t
+		}
+	}
 	key := fmt.Sprintf("%d|%d|%d", s.W, s.Len.ID, s.Read(e.seqProbe).ID)
 	if t, ok := e.seqByKey[key]; ok {
 		e.seqNames = append(e.seqNames, seqName{s, t})
 		return t
 	}
-	t := c.Fresh("seq", sortByteSeq)
+	t := c.FreshOver("seq", sortByteSeq, s.Len, s.Read(e.seqProbe))
 	e.seqByKey[key] = t
 	k := c.BoundVar("k", smt.BV(64))
 	at := func(x, i *smt.Term) *smt.Term { return c.App(fmt.Sprintf("seq_at%d", s.W), smt.BV(s.W), x, i) }
@@ -1109,9 +1117,9 @@ func (se *specEnv) call(n *SCall) Value {
 		return boolV(e.errChainHas(iv, e.typeID(T)))
 	case "strbytes":
 		v := se.scalar(se.eval(n.Args[0]), n)
-		st := v.T
-		return &SeqV{W: 8, Len: c.App("str_len", smt.BV(64), st), Read: func(i *smt.Term) *smt.Term {
-			return c.App("str_at", smt.BV(8), st, i)
+		sb := e.strBytes(v.T)
+		return &SeqV{W: 8, Len: c.App("seq_len", smt.BV(64), sb), Read: func(i *smt.Term) *smt.Term {
+			return c.App("seq_at8", smt.BV(8), sb, i)
 		}}
 	case "hexenc":
 		sq, ok := se.eval(n.Args[0]).(*SeqV)
@@ -1268,6 +1276,10 @@ func (se *specEnv) call(n *SCall) Value {
 		t := c.App("spec_"+u.Name, ret, args...)
 		if fixedLen >= 0 && ret == sortByteSeq {
 			e.addAxioms(c.Eq(c.App("seq_len", smt.BV(64), t), bv64(c, fixedLen)))
+			if e.fixedLen == nil {
+				e.fixedLen = map[int]*smt.Term{}
+			}
+			e.fixedLen[t.ID] = bv64(c, fixedLen)
 			return &SeqV{W: 8, Len: bv64(c, fixedLen), Read: func(i *smt.Term) *smt.Term { return c.App("seq_at8", smt.BV(8), t, i) }}
 		}
 		var T types.Type
@@ -1516,3 +1528,18 @@ type AbsentV struct{}
 func (AbsentV) isValue() {}
 
 func (se *specEnv) absent(x SExpr) Value { return AbsentV{} }
+
+
+// strBytes returns the byte sequence of a string term, with the axioms that
+// tie it to indexing and length of the string.
+func (e *Exec) strBytes(s *smt.Term) *smt.Term {
+	c := e.C
+	sb := c.App("str_bytes", sortByteSeq, s)
+	ln := c.App("str_len", smt.BV(64), s)
+	k := c.BoundVar("k", smt.BV(64))
+	e.addAxioms(
+		c.Eq(c.App("seq_len", smt.BV(64), sb), ln),
+		c.BVSle(bv64(c, 0), ln), c.BVSle(ln, c.BVC(maxLen, 64)),
+		c.Forall([]*smt.Term{k}, c.Eq(c.App("seq_at8", smt.BV(8), sb, k), c.App("str_at", smt.BV(8), s, k))))
+	return sb
+}
